@@ -64,10 +64,20 @@ TOLERANCES = {
 
 D11_KEY = "eigen_sym33_unit|batched|near-repeated-spectrum"
 BATCH = 256
-TAU = 1e-7
-EIGEN_BASED = {"eigen_unit", "eigen_non_unit", "sqrt", "exp", "log", "pow", "explog", "logexp", "polar"}
+TAU = 1e-7          # eigen-decomposition oracles (DESIGN: calibrated worst 4.7e-10)
+TAU_FUN = 1e-6      # function values / identities / equivariance / JVP / polar (worst observed 1.7e-9 single-call)
+EIGEN_BASED = {"eigen_unit", "eigen_non_unit", "sqrt", "exp", "log", "pow", "explog", "logexp", "polar",
+               "sqrt_value", "exp_value", "log_value", "pow_value"}
+JVP_ROUTINES = ("sqrt", "exp", "log", "pow")                       # program = jax.jvp(f, (A,), (E,))
+VALUE_ROUTINES = ("sqrt_value", "exp_value", "log_value", "pow_value")   # program = f(A) alone
+
+
+def _base(routine):
+    return routine[:-6] if routine.endswith("_value") else routine
+
 LIBNAME = {"eigen_unit": "eigen_sym33_unit", "eigen_non_unit": "eigen_sym33_non_unit", "sqrt": "sqrt_symm",
-           "exp": "exp_symm", "log": "log_symm", "pow": "pow_symm", "explog": "exp_symm(log_symm)",
+           "exp": "exp_symm", "log": "log_symm", "pow": "pow_symm", "sqrt_value": "sqrt_symm", "exp_value": "exp_symm",
+           "log_value": "log_symm", "pow_value": "pow_symm", "explog": "exp_symm(log_symm)",
            "logexp": "log_symm(exp_symm)", "detpIm1": "detpIm1", "inv": "inv",
            "polar": "right_polar_decomposition", "sqrtm": "LinAlg.sqrtm", "logm": "LinAlg.logm_iss",
            "math": "Math"}
@@ -122,19 +132,19 @@ def groups(tier, seed):
 
     # heaviest first: pow (two exponent signs x directions), then sqrt/log/exp, polar, eigen, helpers
     for a in ax["pow_m"]:
-        for sh in range(2):
-            add("pow", m=a, shard=sh, nshards=2)
-    for fn in ("sqrt", "log"):
-        for sh in range(2):
-            add(fn, shard=sh, nshards=2)
-    add("exp", shard=0, nshards=1)
+        for sh in range(4):
+            add("pow", m=a, shard=sh, nshards=4)
+    for fn, k in (("log", 3), ("sqrt", 2), ("exp", 2)):
+        for sh in range(k):
+            add(fn, shard=sh, nshards=k)
     add("polar", shard=0, nshards=1)
     add("eigen_unit", shard=0, nshards=1)
     add("eigen_non_unit", shard=0, nshards=1)
     for n in ax["gen_sizes"][::-1]:
         add("general", n=n)
-    add("explog", shard=0, nshards=1)
-    add("logexp", shard=0, nshards=1)
+    add("pow_value", shard=0, nshards=1)
+    for fn in ("sqrt_value", "log_value", "exp_value", "explog", "logexp"):
+        add(fn, shard=0, nshards=1)
     add("inv")
     add("detpIm1")
     add("math")
@@ -222,6 +232,10 @@ def _programs(routine, n=3):
         "exp": lambda A, E: jax.jvp(TM.exp_symm, (A,), (E,)),
         "log": lambda A, E: jax.jvp(TM.log_symm, (A,), (E,)),
         "pow": lambda A, E, m: jax.jvp(lambda X: TM.pow_symm(X, m), (A,), (E,)),
+        "sqrt_value": lambda A: (TM.sqrt_symm(A),),
+        "exp_value": lambda A: (TM.exp_symm(A),),
+        "log_value": lambda A: (TM.log_symm(A),),
+        "pow_value": lambda A, m: (TM.pow_symm(A, m),),
         "explog": lambda A: TM.exp_symm(TM.log_symm(A)),
         "logexp": lambda A: TM.log_symm(TM.exp_symm(A)),
         "detpIm1": lambda A: TM.detpIm1(A),
@@ -243,6 +257,8 @@ def _pad(routine, n=3):
         return (_PAD3, _PADE)
     if routine == "pow":
         return (_PAD3, _PADE, onp.float64(2.0))
+    if routine == "pow_value":
+        return (_PAD3, onp.float64(2.0))
     if routine in ("sqrtm", "logm"):
         return (onp.diag(onp.linspace(1.0, 2.0, n)),)
     return (_PAD3,)
@@ -252,13 +268,6 @@ def _pad(routine, n=3):
 # case builders
 # ----------------------------------------------------------------------------------------------
 
-def _gaplabel_value(spec_label):
-    """relative gap named by the label (None for patterns without a gap parameter)."""
-    if ":" in spec_label and spec_label.split(":")[0] in ("aab", "abb"):
-        return float(spec_label.split(":")[1])
-    return None
-
-
 def _tensor_cases(routine, ax, g):
     """Full product spectrum x scale x orientation (x direction) (x exponent sign) for one routine."""
     from mc.ref import tensor_ref as R
@@ -266,14 +275,17 @@ def _tensor_cases(routine, ax, g):
     scales = ax["scales"]
     if routine == "eigen_unit":
         scales = ax["scales_eigen_unit"]
-    if routine in ("exp", "logexp"):
+    base_fn = _base(routine)
+    if base_fn in ("exp", "logexp"):
         scales = ax["scales_exp"]
-    if routine in ("log", "pow", "explog", "polar"):
+    if base_fn in ("log", "pow", "explog", "polar"):
         spectra = [s for s in spectra if s[2] == "spd"]
-    if routine == "sqrt":
+    if base_fn == "sqrt":
         spectra = [s for s in spectra if s[2] in ("spd", "psd")]
-    dirs = ax["directions"] if routine in ("sqrt", "exp", "log", "pow") else [("-", None)]
+    dirs = ax["directions"] if routine in JVP_ROUTINES else [("-", None)]
     ms = [g["m"], -g["m"]] if routine == "pow" else [None]
+    if routine == "pow_value":
+        ms = [x for a in ax["pow_m"] for x in (a, -a)]
     polar_rots = [("I", onp.eye(3)), ("rz:0.3", R.rot_z(0.3)), ("euler:1", R.rot_z(0.3) @ R.rot_x(1.0) @ R.rot_z(2.0))] \
         if routine == "polar" else [("-", None)]
     sh, nsh = g.get("shard", 0), g.get("nshards", 1)
@@ -311,7 +323,7 @@ def _tensor_cases(routine, ax, g):
                             if m is not None:
                                 meta.update(m=m)
                                 cid += ";m=%g" % m
-                                args = (A, E, onp.float64(m))
+                                args = (A, E, onp.float64(m)) if E is not None else (A, onp.float64(m))
                             cases.append(_Case(cid, args, meta))
     return cases
 
@@ -372,10 +384,12 @@ def _is_perm(md):
 
 
 def _judge_function(routine, c, out, fcache):
-    """sqrt / exp / log / pow: out = (primal, tangent)."""
+    """sqrt / exp / log / pow: out = (primal, tangent) for the JVP programs, (primal,) for the value programs."""
     md = c.meta
-    A, E = md["A"], md["E"]
-    P, T = onp.asarray(out[0], dtype=float), onp.asarray(out[1], dtype=float)
+    routine = _base(routine)
+    A, E = md["A"], md.get("E")
+    P = onp.asarray(out[0], dtype=float)
+    T = onp.asarray(out[1], dtype=float) if E is not None else None
     fails, met, flags = [], {}, {}
     singular = md["kind"] == "psd"
     if routine == "sqrt" and singular and not _is_perm(md):
@@ -389,48 +403,54 @@ def _judge_function(routine, c, out, fcache):
     Fr = _fref(routine, md)
     v = _rel(P, Fr)
     met["value"] = v
-    if not _le(v, TAU):
+    if not _le(v, TAU_FUN):
         fails.append(("value", {"rel_error": v, "expected": Fr}))
     sy = _rel(P.T, P)
     met["symmetry"] = sy
-    if not _le(sy, TAU):
+    if not _le(sy, TAU_FUN):
         fails.append(("value-unsymmetric", {"rel_error": sy}))
     if routine == "sqrt":
         idn = _rel(P @ P, A)
         met["sqrt^2=A"] = idn
-        if not _le(idn, TAU):
+        if not _le(idn, TAU_FUN):
             fails.append(("identity-sqrt^2", {"rel_error": idn}))
     if routine == "pow" and md["m"] == 2.0:
         idn = _rel(P, A @ A)
         met["pow2=AA"] = idn
-        if not _le(idn, TAU):
+        if not _le(idn, TAU_FUN):
             fails.append(("identity-pow2", {"rel_error": idn}))
     # derivative rule
-    if singular:
-        flags["unchecked"] = "sqrt-derivative-singular"
+    if E is None:
         return fails, met, flags
-    key = (md["block"], md["orient"], md.get("m"))
-    if fcache.get("key") != key:
+    if singular:
+        flags["value_only"] = "sqrt-derivative-singular"
+        return fails, met, flags
+    D = md.get("Dref")
+    if D is None:
         from mc.ref import tensor_ref as R
-        fcache["key"] = key
-        fcache["obj"] = R.FrechetCache(A, routine, m=md.get("m"))
-        fcache["D"] = {}
-    if md["dir"] not in fcache["D"]:
-        fcache["D"][md["dir"]] = fcache["obj"].apply(E)
-    D = fcache["D"][md["dir"]]
+        mkey = (md["block"], md["orient"])
+        if fcache.get("mkey") != mkey:
+            fcache.clear()
+            fcache["mkey"] = mkey
+            fcache["objs"] = {}
+        objs = fcache["objs"]
+        if md.get("m") not in objs:
+            shared = next((o.log_op for o in objs.values() if o.log_op is not None), None)
+            objs[md.get("m")] = R.FrechetCache(A, routine, m=md.get("m"), log_op=shared)
+        D = objs[md.get("m")].apply(E)
+        md["Dref"] = D
     j = _rel(T, D)
     judged = True
     if routine == "pow":
-        gl = _gaplabel_value(md["spec"])
         separated = md["relgap"] >= 1e-3
         exact_equal = (md["relgap"] == 0.0) and _is_perm(md)
         judged = separated or exact_equal
     if judged:
         met["jvp"] = j
-        if not _le(j, TAU):
+        if not _le(j, TAU_FUN):
             fails.append(("jvp", {"rel_error": j, "expected": D, "observed": T}))
     else:
-        flags["unchecked"] = "pow-jvp-nearly-degenerate"
+        flags["value_only"] = "pow-jvp-nearly-degenerate"
         met["pow-jvp-nearly-degenerate(unjudged)"] = j if j == j else float("inf")
     return fails, met, flags
 
@@ -445,11 +465,11 @@ def _judge_compose(routine, c, out):
     if routine == "explog":
         v = _rel(X, A)
         met["exp(log)=id"] = v
-        ok = _le(v, TAU)
+        ok = _le(v, TAU_FUN)
     else:
         v = _fro(X - A) / (1.0 + _fro(A))
         met["log(exp)=id"] = v
-        ok = _le(v, TAU)
+        ok = _le(v, TAU_FUN)
     if not ok:
         fails.append(("identity", {"error": v}))
     return fails, met, {}
@@ -462,7 +482,7 @@ def _judge_polar(c, out):
     fails, met = [], {}
     if not (onp.all(onp.isfinite(Rl)) and onp.all(onp.isfinite(U))):
         return [("nan", {})], met, {}
-    tol = max(md["cond"] * 1e-10, TAU)
+    tol = max(md["cond"] * 1e-10, TAU_FUN)
     e1 = _rel(Rl @ U, F)
     e2 = _fro(Rl.T @ Rl - onp.eye(3))
     e3 = _rel(U.T, U)
@@ -494,6 +514,19 @@ def _detail(c, out, fails):
     return d
 
 
+MAX_RECORDS_PER_KEY = 10     # per group; every occurrence is still counted in the branch table
+
+
+def _violation(rec, key, cid, det):
+    """The recorder keeps at most 200 violation records per group; D11 alone produces more. Keep the first
+    MAX_RECORDS_PER_KEY records of every key so that no key can be crowded out, count all of them."""
+    seen = rec.__dict__.setdefault("_c12_perkey", {})
+    seen[key] = seen.get(key, 0) + 1
+    rec.branch("violations-by-key:" + key)
+    if seen[key] <= MAX_RECORDS_PER_KEY or rec.only is not None:
+        rec.violation(key, cid, det)
+
+
 def _record(rec, routine, cases, results, nontrivial_fn, sample_ids, steps=1):
     """results: {mode: list of (fails, metrics, flags, out)} aligned with cases."""
     for i, c in enumerate(cases):
@@ -507,6 +540,8 @@ def _record(rec, routine, cases, results, nontrivial_fn, sample_ids, steps=1):
                 rec.track_max("%s|%s|%s" % (routine, mode, k), v)
             cls = c.meta.get("class", "general")
             outcome = "ok:" + cls
+            if flags.get("value_only"):
+                outcome = "ok(value judged, derivative unjudged:%s):%s" % (flags["value_only"], cls)
             if flags.get("unchecked"):
                 outcome = "no-oracle:%s%s" % (flags["unchecked"], ":nan" if flags.get("nan") else "")
             if fails:
@@ -524,7 +559,7 @@ def _record(rec, routine, cases, results, nontrivial_fn, sample_ids, steps=1):
                 det = _detail(c, out, fails)
                 det["single_call_passes"] = not s_fails
                 det["routine"] = LIBNAME[routine]
-                rec.violation(key, cid, det)
+                _violation(rec, key, cid, det)
             rec.branch("mode:" + mode)
             rec.case(cid, nontrivial=nontrivial_fn(c), outcome=outcome, steps=steps,
                      sample=({"case": cid, "input": [onp.asarray(a).tolist() for a in c.args],
@@ -563,7 +598,7 @@ def _nontrivial_tensor(c):
 def run_group(g, tier, seed, rec):
     routine = g["routine"]
     ax = _axes(tier, seed)
-    if routine in ("eigen_unit", "eigen_non_unit", "sqrt", "exp", "log", "pow", "explog", "logexp", "polar"):
+    if routine in EIGEN_BASED:
         _run_tensor(routine, g, ax, tier, seed, rec)
     elif routine == "general":
         _run_general(g, ax, tier, seed, rec)
@@ -596,24 +631,24 @@ def _run_tensor(routine, g, ax, tier, seed, rec):
         c.meta["branches"] = seen[k]
 
     results = {}
+    fcache = {}
     for mode in ("single", "batched"):
-        fcache = {}
         if routine in ("eigen_unit", "eigen_non_unit"):
             judge = lambda c, o: _judge_eigen(routine, c, o)            # noqa
-        elif routine in ("sqrt", "exp", "log", "pow"):
+        elif routine in JVP_ROUTINES + VALUE_ROUTINES:
             judge = lambda c, o: _judge_function(routine, c, o, fcache)  # noqa
         elif routine in ("explog", "logexp"):
             judge = lambda c, o: _judge_compose(routine, c, o)          # noqa
         else:
             judge = lambda c, o: _judge_polar(c, o)                     # noqa
         res = _evaluate(cases, outs[mode], judge)
-        if routine in ("sqrt", "exp", "log", "pow"):
-            _cross_checks(routine, cases, res)
+        if routine in JVP_ROUTINES + VALUE_ROUTINES:
+            _cross_checks(_base(routine), cases, res)
         results[mode] = res
 
     # branch accounting for the derivative rule: which divided-difference formula is used per eigen-pair,
     # measured from the library's own eigenvalues of the same matrix (single jitted eigen call)
-    if routine in ("sqrt", "exp", "log", "pow"):
+    if routine in JVP_ROUTINES:
         import jax
         from optimism import TensorMath as TM
         eig1 = jax.jit(TM.eigen_sym33_unit)
@@ -647,21 +682,26 @@ def _cross_checks(routine, cases, res):
         if isinstance(out, Exception) or flags.get("unchecked") == "sqrt-rank-deficient-rotated":
             continue
         P = onp.asarray(out[0], dtype=float)
+        if not onp.all(onp.isfinite(P)):
+            continue                      # already reported as value-nan
         j = index.get((md["block"], "perm:012", md.get("dir"), md.get("m")))
         if j is not None and j != i and not isinstance(res[j][3], Exception):
             P0 = onp.asarray(res[j][3][0], dtype=float)
-            Q = md["Q"]
-            e = _rel(P, Q @ P0 @ Q.T)
-            met["equivariance"] = e
-            if not _le(e, TAU) and onp.all(onp.isfinite(P0)):
-                fails.append(("equivariance", {"rel_error": e}))
+            if onp.all(onp.isfinite(P0)):
+                Q = md["Q"]
+                e = _rel(P, Q @ P0 @ Q.T)
+                met["equivariance"] = e
+                if not _le(e, TAU_FUN):
+                    fails.append(("equivariance", {"rel_error": e}))
         if routine == "pow" and md["m"] > 0:
             j = index.get((md["block"], md["orient"], md.get("dir"), -md["m"]))
             if j is not None and not isinstance(res[j][3], Exception):
                 Pm = onp.asarray(res[j][3][0], dtype=float)
+                if not onp.all(onp.isfinite(Pm)):
+                    continue              # reported on the negative-exponent case itself
                 e = _fro(P @ Pm - onp.eye(3))
-                met["pow(m)pow(-m)=I"] = e if e == e else float("inf")
-                if not _le(e, TAU):
+                met["pow(m)pow(-m)=I"] = e
+                if not _le(e, TAU_FUN):
                     fails.append(("identity-pow-inverse", {"error": e}))
 
 
